@@ -48,7 +48,7 @@ from xdsl.irdl import (
 )
 from xdsl.parser import AttrParser, Parser, UnresolvedOperand
 from xdsl.printer import Printer
-from xdsl.utils.exceptions import PyRDLError, VerifyException
+from xdsl.utils.exceptions import ParseError, PyRDLError, VerifyException
 from xdsl.utils.hints import isa
 from xdsl.utils.mlir_lexer import PunctuationSpelling
 
@@ -1244,6 +1244,20 @@ class AttributeVariable(FormatDirective):
 class UniqueBaseAttributeVariable(AttributeVariable):
     unique_base: type[Attribute]
     """The known base class of the Attribute, if any."""
+
+    def parse(self, parser: Parser, state: ParsingState) -> bool:
+        if not self.is_optional:
+            return super().parse(parser, state)
+        # The parsers of the stripped form have no optional variant. As for the
+        # `parse_optional_*` methods of the parser, the attribute is absent if its
+        # first token is unexpected, and an error after that token is an error.
+        pos = parser.pos
+        try:
+            return super().parse(parser, state)
+        except ParseError:
+            if parser.pos != pos:
+                raise
+            return False
 
     def parse_attr(self, parser: Parser) -> Attribute | None:
         unique_base = self.unique_base
